@@ -591,8 +591,21 @@ def _check_filters(run, world, mod, F, cfg, ys, fn, setter):
                    asm[0].ast), "low_to_high_sources": got})
         if setter:
             # the same names carried the bytes loaded into DTR0/1/2
+            # (a read-back slot initialised with the byte that was asked
+            # for - `slot = lo` - stands in that byte's lane)
+            def lane_of(nm):
+                if nm in lanes:
+                    return lanes[nm]
+                src = {unparse(n_.ast.value) for n_ in cfg.reachable
+                       if n_.kind == "stmt" and isinstance(
+                           n_.ast, ast.Assign) and len(
+                               n_.ast.targets) == 1 and unparse(
+                                   n_.ast.targets[0]) == nm and isinstance(
+                                       n_.ast.value, ast.Name)}
+                ls = {lanes.get(x) for x in src}
+                return ls.pop() if len(ls) == 1 else None
             run.ob("R-DTRSYM", F + "#same-lanes",
-                   [lanes.get(nm) for nm in asm[1]] == [0, 1, 2],
+                   [lane_of(nm) for nm in asm[1]] == [0, 1, 2],
                    "read-back lanes do not line up with the loaded lanes",
                    where(mod, asm[0]))
 
